@@ -90,12 +90,28 @@ def check(ctx, src):
     ctx.decide("H2P-KEYWORDS", f"{CO}|rewriting_unparse|constants untouched", None if fields is None else const_safe, "string constants that happen to be keywords must not be rewritten", CO, ru.lineno,
                witness='the literal "class" is printed as a mangled word', detail="Constant nodes are skipped")
     # (4) only keyword strings other than True/False/None
-    vv = sa.args[2]
-    want = {"keyword.iskeyword(v)", "v not in ('False', 'None', 'True')"}
-    b = pm.Binder()
-    hits = [a for a in pyq.guard_texts(sa, ru) if any(b.eq(a.node, "type(v) is str and keyword.iskeyword(v) and (v not in ('True', 'False', 'None'))") for _ in [0])]
-    ctx.check(bool(hits), "H2P-KEYWORDS", f"{CO}|rewriting_unparse|which strings", "only identifier fields holding a Python keyword (other than True/False/None) may be rewritten", CO, ru.lineno,
-              witness="None / True are printed as mangled words", detail="str, keyword, not a constant name")
+    at = pyq.atoms(sa, ru)
+    vname = None
+    iskw = next((a for a in at if isinstance(a.node, ast.Call) and dotted(a.node.func) == "keyword.iskeyword" and a.node.args and isinstance(a.node.args[0], ast.Name)), None)
+    if iskw is not None:
+        vname = iskw.node.args[0].id
+    isstr = any(a == f"type({vname}) is str" or a == f"isinstance({vname}, str)" for a in at) if vname else False
+    excl = None
+    for a in at:
+        n = a.node
+        if isinstance(n, ast.Compare) and len(n.ops) == 1 and isinstance(n.ops[0], ast.NotIn) and isinstance(n.left, ast.Name) and n.left.id == vname:
+            try:
+                excl = set(fold(n.comparators[0], module_env(co, {dotted(n.comparators[0]) or ""})))
+            except Exception:
+                for st in ast.walk(co.tree):
+                    if isinstance(st, ast.Assign) and isinstance(st.targets[0], ast.Name) and st.targets[0].id == dotted(n.comparators[0]):
+                        try:
+                            excl = set(fold(st.value))
+                        except Exception:
+                            pass
+    verdict = None if (iskw is None or excl is None) else (isstr and excl == {"True", "False", "None"})
+    ctx.decide("H2P-KEYWORDS", f"{CO}|rewriting_unparse|which strings", verdict, f"only identifier fields holding a Python keyword (other than True/False/None) may be rewritten (str test: {isstr}; excluded: {sorted(excl) if excl else excl})", CO, ru.lineno,
+               witness="None / True are printed as mangled words", detail="str, keyword, not a constant name")
     ctx.check(pm.find(ru, "setattr(node, field, chr(ord(v[0]) - ord('a') + ord('𝐚')) + v[1:])") is not None, "H2P-KEYWORDS", f"{CO}|rewriting_unparse|NFKC-equivalent",
               "the replacement must be the NFKC-equivalent spelling (first letter in MATHEMATICAL BOLD)", CO, ru.lineno, detail="bold first letter")
     # --- shared rules
